@@ -315,3 +315,192 @@ Proof.
   destruct (Z.ltb_spec m (Z.of_nat (length p + k))) as [H1|H1]; [|lia].
   rewrite nth_error_app2 by lia. apply nth_error_repeat. lia.
 Qed.
+
+(** ---- total coefficient of a repacked stoichiometry (Z) ------------------------------------------- *)
+Definition tc (d : list (lname * Z)) (X : lname) : Z :=
+  fold_right Z.add 0%Z (map (fun kz => if lname_eq_dec (fst kz) X then snd kz else 0%Z) d).
+
+Lemma tc_app d1 d2 X : tc (d1 ++ d2) X = (tc d1 X + tc d2 X)%Z.
+Proof. unfold tc. induction d1 as [|kz d IH]; cbn; [reflexivity|]. cbn in IH. rewrite IH. lia. Qed.
+
+Lemma tc_set_get a v v' d X :
+  getL a d = Some v -> tc (setL a v' d) X = (tc d X + (if lname_eq_dec a X then v' - v else 0))%Z.
+Proof.
+  unfold getL, setL. induction d as [|[k0 v0] d IH]; intro H; cbn in H; [discriminate|].
+  cbn [dict_set]. destruct (lname_eq_dec a k0) as [->|Hne].
+  - inversion H; subst v0. unfold tc. cbn. destruct (lname_eq_dec k0 X); lia.
+  - specialize (IH H). unfold tc in *. cbn in *. rewrite IH. lia.
+Qed.
+
+Lemma tc_dict_add a dz d X : tc (dict_add a dz d) X = (tc d X + (if lname_eq_dec a X then dz else 0))%Z.
+Proof.
+  unfold dict_add. destruct (getL a d) as [v|] eqn:Hg.
+  - rewrite (tc_set_get _ _ _ _ _ Hg). destruct (lname_eq_dec a X); lia.
+  - rewrite tc_app. unfold tc at 2. cbn. destruct (lname_eq_dec a X); lia.
+Qed.
+
+Lemma tc_fold_add dz l d0 X :
+  tc (fold_left (fun d a => dict_add a dz d) l d0) X
+  = (tc d0 X + dz * Z.of_nat (count_occ lname_eq_dec l X))%Z.
+Proof.
+  revert d0. induction l as [|a l IH]; intro d0; cbn [fold_left count_occ]; [lia|].
+  rewrite IH, tc_dict_add. destruct (lname_eq_dec a X); lia.
+Qed.
+
+Lemma tc_repack ns np X :
+  tc (repack ns np) X = (Z.of_nat (count_occ lname_eq_dec np X) - Z.of_nat (count_occ lname_eq_dec ns X))%Z.
+Proof. unfold repack. rewrite !tc_fold_add. change (tc [] X) with 0%Z. lia. Qed.
+
+Definition base_env_gen {R} (sum : list R -> R) (lv : label_vars) (env : lname -> R) (a : N) : R :=
+  sum (map (fun q => env (iso_name a q)) (all_patterns (nlab lv a))).
+
+Section Dynamics.
+  Variable R : Type.
+  Variables (rO rI : R) (radd rmul rsub : R -> R -> R) (ropp rinv : R -> R) (ofZ : Z -> R).
+  Hypothesis Rth : ring_theory rO rI radd rmul rsub ropp eq.
+  Hypothesis ofZ_0 : ofZ 0%Z = rO.
+  Hypothesis ofZ_1 : ofZ 1%Z = rI.
+  Hypothesis ofZ_add : forall a b, ofZ (a + b)%Z = radd (ofZ a) (ofZ b).
+  Hypothesis ofZ_opp : forall a, ofZ (- a)%Z = ropp (ofZ a).
+  Add Ring Rring_dyn : Rth.
+
+  Notation "0" := rO. Notation "1" := rI.
+  Infix "+" := radd. Infix "*" := rmul. Infix "-" := rsub.
+  Notation sum := (sumR R rO radd).
+  Notation prod := (prodR R rI rmul).
+  Notation ofN := (ofNat R ofZ).
+  Notation Deriv := (deriv R rO rI radd rmul ropp rinv ofZ).
+  Notation Rate := (rate R rO rI radd rmul ropp rinv).
+  Notation CoefAt := (coef_at R rO rI radd rmul ropp rinv ofZ).
+
+  Let s_app := sum_app R rO rI radd rmul rsub ropp Rth.
+  Let p_app := prod_app R rO rI radd rmul rsub ropp Rth.
+  Let s_scale := @sum_map_scale R rO rI radd rmul rsub ropp Rth.
+  Let s_scale_r := @sum_map_scale_r R rO rI radd rmul rsub ropp Rth.
+  Let s_add := @sum_map_add R rO rI radd rmul rsub ropp Rth.
+  Let s_sub := @sum_map_sub R rO rI radd rmul rsub ropp Rth.
+  Let s_zero := @sum_map_zero R rO rI radd rmul rsub ropp Rth.
+  Let s_swap := @sum_swap R rO rI radd rmul rsub ropp Rth.
+  Let s_ext := @sum_map_ext R rO radd.
+  Let s_cons := sum_cons R rO radd.
+  Let p_cons := prod_cons R rI rmul.
+  Let ofN_S := ofNat_S R rI radd ofZ ofZ_1 ofZ_add.
+  Let ofZ_minus := ofZ_sub R rO rI radd rmul rsub ropp ofZ Rth ofZ_add ofZ_opp.
+
+  Lemma coef_at_CZ env name fn args (d : list (lname * Z)) X :
+    CoefAt env (mkLR name fn args (map (fun kz => (fst kz, CZ (snd kz))) d)) X = ofZ (tc d X).
+  Proof.
+    unfold coef_at. cbn [lr_stoich]. rewrite map_map. cbn [fst snd coefval].
+    induction d as [|[k z] d IH].
+    - cbn [map]. unfold tc. cbn. symmetry. exact ofZ_0.
+    - cbn [map fst snd]. rewrite s_cons, IH. unfold tc. cbn [map fold_right fst snd].
+      rewrite ofZ_add. destruct (lname_eq_dec k X); [reflexivity|]. rewrite ofZ_0. reflexivity.
+  Qed.
+
+  Section Collapse.
+    Variable nl : N -> nat.
+    Variable g : list bool -> R.
+
+    Definition Gsum (c : N) (pairs : list (N * list bool)) : R :=
+      sum (map (fun cq => if N.eq_dec (fst cq) c then g (snd cq) else 0) pairs).
+
+    Lemma collapse_g pairs c :
+      wf_pairs nl pairs ->
+      sum (map (fun bits => g bits * ofN (count_occ lname_eq_dec (map (fun cq => iso_name (fst cq) (snd cq)) pairs)
+                                                    (iso_name c bits)))
+               (all_patterns (nl c)))
+      = Gsum c pairs.
+    Proof.
+      unfold Gsum. induction pairs as [|[c' q] pairs IH]; intro Hwf.
+      - cbn [map count_occ]. rewrite (s_ext _ _ (fun _ => 0)); [apply s_zero|].
+        intros bits _. unfold ofNat. cbn. rewrite ofZ_0. ring.
+      - apply Forall_cons_iff in Hwf. destruct Hwf as [Hq Hwf]. cbn [fst snd] in Hq.
+        cbn [map fst snd]. rewrite s_cons, <- (IH Hwf). clear IH.
+        rewrite <- s_add. 
+        destruct (N.eq_dec c' c) as [->|Hne].
+        + rewrite <- (sum_indicator R rO rI radd rmul rsub ropp Rth (list_eq_dec Bool.bool_dec) g q (all_patterns (nl c)))
+            by (try apply all_patterns_NoDup; apply all_patterns_complete; exact Hq).
+          rewrite <- s_add. apply s_ext. intros bits _. cbn [count_occ].
+          destruct (lname_eq_dec (iso_name c q) (iso_name c bits)) as [Heq|Hneq].
+          * apply iso_name_inj in Heq. destruct Heq as [_ ->].
+            destruct (list_eq_dec Bool.bool_dec bits bits); [|contradiction]. rewrite ofN_S. ring.
+          * destruct (list_eq_dec Bool.bool_dec q bits) as [->|]; [contradiction|]. ring.
+        + apply s_ext. intros bits _. cbn [count_occ].
+          destruct (lname_eq_dec (iso_name c' q) (iso_name c bits)) as [Heq|Hneq].
+          * apply iso_name_inj in Heq. destruct Heq as [Hc _]. contradiction.
+          * ring.
+    Qed.
+  End Collapse.
+
+  Lemma Gsum_one c cs sufs :
+    length cs = length sufs -> Gsum (fun _ => 1) c (combine cs sufs) = ofN (count_occ N.eq_dec cs c).
+  Proof.
+    unfold Gsum. revert sufs. induction cs as [|c' cs IH]; intros [|q sufs] H; cbn in H; try discriminate.
+    - cbn. unfold ofNat. symmetry. exact ofZ_0.
+    - cbn [combine map fst snd count_occ]. rewrite s_cons, IH by lia.
+      destruct (N.eq_dec c' c); [rewrite ofN_S; reflexivity|ring].
+  Qed.
+
+  (** ---- one mapped reaction ------------------------------------------------------------------- *)
+  Section OneReaction.
+    Variable ext_bit : bool.
+    Variable lv : label_vars.
+    Variable r : brxn.
+    Variable lmap : list Z.
+    Variable env : lname -> R.
+    Let bs := subs_of (r_stoich r).
+    Let bp := prods_of (r_stoich r).
+    Let lps := labels_per lv bs.
+    Let lpp := labels_per lv bp.
+    Let tsl := total lps.
+    Let tpl := total lpp.
+    Let nl := nlab lv.
+    Let sfx := suffix_of ext_bit lv r.
+    Let psfx := psuffix_of ext_bit lv r lmap.
+    Definition subpairs (p : list bool) := combine bs (split_label (sfx p) lps).
+    Definition prodpairs (p : list bool) := combine bp (split_label (psfx p) lpp).
+
+    Lemma mk_iso_rxn_stoich p :
+      lr_stoich (mk_iso_rxn lv r (sfx p) (psfx p))
+      = map (fun kz => (fst kz, CZ (snd kz)))
+            (repack (map (fun cq => iso_name (fst cq) (snd cq)) (subpairs p))
+                    (map (fun cq => iso_name (fst cq) (snd cq)) (prodpairs p))).
+    Proof. reflexivity. Qed.
+
+    Lemma subpairs_wf p : In p (all_patterns tsl) -> wf_pairs nl (subpairs p).
+    Proof.
+      intro Hp. apply all_patterns_length in Hp. unfold subpairs, lps, labels_per. fold nl.
+      apply wf_pairs_split. unfold sfx, suffix_of. rewrite app_length. fold bs. fold lps. fold tsl.
+      fold nl in tsl. unfold tsl, lps, labels_per in Hp. fold nl in Hp. lia.
+    Qed.
+
+    (** the weighted collapse: sum over c's isotopomers of g(bits) * derivative *)
+    Lemma weighted_collapse (g : list bool -> R) c rxns :
+      create_iso_rxns ext_bit lv r lmap = Ok rxns ->
+      tpl <= length lmap ->
+      sum (map (fun bits => g bits * Deriv env rxns (iso_name c bits)) (all_patterns (nl c)))
+      = sum (map (fun p => (Gsum g c (prodpairs p) - Gsum g c (subpairs p))
+                           * Rate env (mk_iso_rxn lv r (sfx p) (psfx p)))
+                 (all_patterns tsl)).
+    Proof.
+      intros Hc Hl. apply create_ok_shape in Hc. fold bs in Hc. fold lps in Hc. fold tsl in Hc.
+      destruct Hc as [Hlen [-> Hs]]. fold sfx in Hs. fold psfx in Hs. fold sfx. fold psfx.
+      unfold deriv. rewrite (s_ext _ _ (fun bits => sum (map (fun p =>
+           g bits * (CoefAt env (mk_iso_rxn lv r (sfx p) (psfx p)) (iso_name c bits)
+                     * Rate env (mk_iso_rxn lv r (sfx p) (psfx p)))) (all_patterns tsl)))).
+      2:{ intros bits _. rewrite map_map, <- s_scale. reflexivity. }
+      rewrite s_swap. apply s_ext. intros p Hp.
+      assert (Hwp : wf_pairs nl (prodpairs p)).
+      { unfold prodpairs, lpp, labels_per. fold nl. apply wf_pairs_split.
+        specialize (Hs p Hp). apply mapM_length in Hs. fold nl in tpl. unfold tpl, lpp, labels_per in Hl. fold nl in Hl. lia. }
+      pose proof (subpairs_wf p Hp) as Hws.
+      rewrite <- (collapse_g nl g _ c Hwp), <- (collapse_g nl g _ c Hws), <- s_sub.
+      rewrite <- s_scale_r. apply s_ext. intros bits _.
+      unfold coef_at. rewrite mk_iso_rxn_stoich. fold (CoefAt env (mkLR (lr_name (mk_iso_rxn lv r (sfx p) (psfx p)))
+        (lr_fn (mk_iso_rxn lv r (sfx p) (psfx p))) (lr_args (mk_iso_rxn lv r (sfx p) (psfx p)))
+        (map (fun kz => (fst kz, CZ (snd kz))) (repack (map (fun cq => iso_name (fst cq) (snd cq)) (subpairs p))
+                    (map (fun cq => iso_name (fst cq) (snd cq)) (prodpairs p))))) (iso_name c bits)).
+      rewrite coef_at_CZ, tc_repack, ofZ_minus. unfold ofNat. ring.
+    Qed.
+  End OneReaction.
+End Dynamics.
